@@ -904,6 +904,209 @@ func callersOfCompErrFacts() (ok, srSetsLock, srPerErrGivesBack, srCloseGivesBac
 	return ok, srSetsLock, srPerErrGivesBack, srCloseGivesBack
 }
 
+// ---------------------------------------------------------------------------------------------
+// what a write group carries (C10/C04/C20: Model/WriteProto.lean `Cfg`, `mergeLimitOf`)
+
+// commClauseOf finds, anywhere in fn, the select comm clause whose communication has the text comm.
+func commClauseOf(rel, fn, comm string) *ast.CommClause {
+	fd := findFunc(rel, fn)
+	if fd == nil {
+		fatal("function %s not found in %s", fn, rel)
+	}
+	var out *ast.CommClause
+	ast.Inspect(fd.Body, func(nd ast.Node) bool {
+		if cc, ok := nd.(*ast.CommClause); ok && out == nil && cc.Comm != nil && stmtText(cc.Comm) == comm {
+			out = cc
+		}
+		return true
+	})
+	return out
+}
+
+// wpSyncOutside: in the `case incoming := <-db.writeMergeC:` clause of writeLocked, `sync = sync || incoming.sync`
+// is a top-level statement of the clause body (so outside both branches of `if incoming.batch != nil`), it comes after
+// that `if` and before `db.writeMergedC <- true`, and it occurs nowhere else in the function.
+func wpSyncOutside() bool {
+	const rel, fn, stmt = "leveldb/db_write.go", "DB.writeLocked", "sync = sync || incoming.sync"
+	cc := commClauseOf(rel, fn, "incoming := <-db.writeMergeC")
+	if cc == nil || countStmts(rel, fn, stmt) != 1 {
+		return false
+	}
+	iIf, iSync, iReply := -1, -1, -1
+	for i, st := range cc.Body {
+		t := stmtText(st)
+		switch {
+		case strings.HasPrefix(t, "if incoming.batch != nil {"):
+			iIf = i
+		case t == stmt:
+			iSync = i
+		case t == "db.writeMergedC <- true":
+			iReply = i
+		}
+	}
+	return iIf >= 0 && iIf < iSync && iSync < iReply
+}
+
+// wpMergedPutToOur: the only `appendRec` of writeLocked is `ourBatch.appendRec(incoming.keyType, incoming.key, incoming.value)`,
+// it stands in the else branch of `if incoming.batch != nil` after the `if ourBatch == nil {…}`, and no mutating method is
+// called on `batch` / `incoming.batch` anywhere in the function.
+func wpMergedPutToOur() bool {
+	const rel, fn = "leveldb/db_write.go", "DB.writeLocked"
+	const stmt = "ourBatch.appendRec(incoming.keyType, incoming.key, incoming.value)"
+	t := funcText(rel, fn)
+	if countStmts(rel, fn, stmt) != 1 || strings.Count(t, "appendRec(") != 1 {
+		return false
+	}
+	for _, recv := range []string{"batch", "incoming.batch"} {
+		for _, m := range []string{"appendRec", "append", "Put", "Delete", "Reset", "Load", "grow"} {
+			pat := recv + "." + m + "("
+			for i := strings.Index(t, pat); i >= 0; {
+				// `ourBatch.` ends in `Batch.`, not in `batch.`: only a preceding letter/dot/underscore makes it another identifier
+				if i == 0 || !(t[i-1] == '.' || t[i-1] == '_' || (t[i-1] >= 'a' && t[i-1] <= 'z') || (t[i-1] >= 'A' && t[i-1] <= 'Z') || (t[i-1] >= '0' && t[i-1] <= '9')) {
+					return false
+				}
+				j := strings.Index(t[i+1:], pat)
+				if j < 0 {
+					break
+				}
+				i += 1 + j
+			}
+		}
+	}
+	cc := commClauseOf(rel, fn, "incoming := <-db.writeMergeC")
+	if cc == nil {
+		return false
+	}
+	for _, st := range cc.Body {
+		is, ok := st.(*ast.IfStmt)
+		if !ok || stmtText(is.Cond) != "incoming.batch != nil" {
+			continue
+		}
+		els, ok := is.Else.(*ast.BlockStmt)
+		if !ok {
+			return false
+		}
+		iNil, iApp := -1, -1
+		for i, s := range els.List {
+			u := stmtText(s)
+			if strings.HasPrefix(u, "if ourBatch == nil {") {
+				iNil = i
+			}
+			if u == stmt {
+				iApp = i
+			}
+		}
+		return iNil >= 0 && iNil < iApp
+	}
+	return false
+}
+
+// wpUnlockHandsOff: the top-level statements of unlockWrite are the ack loop `for i := 0; i < merged; i++ { db.writeAckC <- err … }`
+// followed by `if overflow { … db.writeMergedC <- false } else { … <-db.writeLockC }` with the condition exactly `overflow`.
+func wpUnlockHandsOff() bool {
+	fd := findFunc("leveldb/db_write.go", "DB.unlockWrite")
+	if fd == nil {
+		fatal("function DB.unlockWrite not found")
+	}
+	var body []ast.Stmt
+	for _, st := range fd.Body.List {
+		if !isHook(st) {
+			body = append(body, st)
+		}
+	}
+	if len(body) != 2 {
+		return false
+	}
+	fs, ok := body[0].(*ast.ForStmt)
+	if !ok || fs.Cond == nil || stmtText(fs.Cond) != "i < merged" || !blockHas(fs.Body, "db.writeAckC <- err") {
+		return false
+	}
+	is, ok := body[1].(*ast.IfStmt)
+	if !ok || is.Init != nil || stmtText(is.Cond) != "overflow" || !blockHas(is.Body, "db.writeMergedC <- false") {
+		return false
+	}
+	els, ok := is.Else.(*ast.BlockStmt)
+	return ok && blockHas(els, "<-db.writeLockC") && !blockHas(is.Body, "<-db.writeLockC") && !blockHas(els, "db.writeMergedC <- false")
+}
+
+func isHook(st ast.Stmt) bool {
+	if es, ok := st.(*ast.ExprStmt); ok {
+		if ce, ok := es.X.(*ast.CallExpr); ok {
+			return exprString(ce.Fun) == "verifAt"
+		}
+	}
+	return false
+}
+
+// blockHas: one of the top-level statements of the block has exactly the text stmt.
+func blockHas(b *ast.BlockStmt, stmt string) bool {
+	for _, st := range b.List {
+		if stmtText(st) == stmt {
+			return true
+		}
+	}
+	return false
+}
+
+// wpMergeLimit reads `if batch.internalLen > X { mergeLimit = Y - batch.internalLen } else { mergeLimit = Z }` off writeLocked
+// (the three constants) and checks the rest of the limit arithmetic (shape).
+func wpMergeLimit() (x, y, z constant.Value, shape bool) {
+	const rel, fn = "leveldb/db_write.go", "DB.writeLocked"
+	fd := findFunc(rel, fn)
+	if fd == nil {
+		fatal("function %s not found in %s", fn, rel)
+	}
+	ast.Inspect(fd.Body, func(nd ast.Node) bool {
+		is, ok := nd.(*ast.IfStmt)
+		if !ok || x != nil {
+			return true
+		}
+		be, ok := is.Cond.(*ast.BinaryExpr)
+		if !ok || be.Op != token.GTR || exprString(be.X) != "batch.internalLen" {
+			return true
+		}
+		els, ok := is.Else.(*ast.BlockStmt)
+		if !ok || len(is.Body.List) != 1 || len(els.List) != 1 {
+			return true
+		}
+		a1, ok1 := is.Body.List[0].(*ast.AssignStmt)
+		a2, ok2 := els.List[0].(*ast.AssignStmt)
+		if !ok1 || !ok2 || a1.Tok != token.ASSIGN || a2.Tok != token.ASSIGN || exprString(a1.Lhs[0]) != "mergeLimit" || exprString(a2.Lhs[0]) != "mergeLimit" {
+			return true
+		}
+		sub, ok := a1.Rhs[0].(*ast.BinaryExpr)
+		if !ok || sub.Op != token.SUB || exprString(sub.Y) != "batch.internalLen" {
+			return true
+		}
+		vx, e1 := evalConst(be.Y, env{}, 0)
+		vy, e2 := evalConst(sub.X, env{}, 0)
+		vz, e3 := evalConst(a2.Rhs[0], env{}, 0)
+		if e1 == nil && e2 == nil && e3 == nil {
+			x, y, z = vx, vy, vz
+		}
+		return true
+	})
+	if x == nil {
+		fatal("merge limit computation not found in %s", fn)
+	}
+	cc := commClauseOf(rel, fn, "incoming := <-db.writeMergeC")
+	shape = cc != nil &&
+		topLevelOrNested(rel, fn, "mergeCap := mdbFree - batch.internalLen") &&
+		ifBodyHas(rel, fn, "mergeLimit > mergeCap", "mergeLimit = mergeCap") &&
+		textBefore(rel, fn, "mergeCap := mdbFree - batch.internalLen", "for mergeLimit > 0 {") &&
+		textBefore(rel, fn, "if mergeLimit > mergeCap {", "for mergeLimit > 0 {") &&
+		ifBodySeq(rel, fn, "incoming.batch.internalLen > mergeLimit", []string{"overflow = true", "break merge"}) &&
+		ifBodySeq(rel, fn, "internalLen > mergeLimit", []string{"overflow = true", "break merge"}) &&
+		countStmts(rel, fn, "internalLen := len(incoming.key) + len(incoming.value) + 8") == 1 &&
+		countStmts(rel, fn, "mergeLimit -= incoming.batch.internalLen") == 1 &&
+		countStmts(rel, fn, "mergeLimit -= internalLen") == 1 &&
+		countStmts(rel, fn, "batches = append(batches, incoming.batch)") == 1 &&
+		strings.Count(funcText(rel, fn), "mergeLimit") == 10
+	return
+}
+
+func topLevelOrNested(rel, fn, stmt string) bool { return countStmts(rel, fn, stmt) == 1 }
+
 // funcText is the printed body of a function.
 func funcText(rel, fn string) string {
 	fd := findFunc(rel, fn)
@@ -1246,6 +1449,31 @@ func main() {
 		return i >= 0 && j >= 0 && i < j && strings.Count(t, "db.addSeq(") == 2
 	}(),
 		"`writeLocked` inserts the group into the buffer before it publishes the new sequence number")
+
+	// what a write group carries (C10, with C04 and C20 through the merge: Model/WriteProto.lean `Cfg.code`, `mergeLimitOf`)
+	o.b.WriteString("\n/-! What `writeLocked` / `unlockWrite` do with the contents of a write group. -/\n\n")
+	o.boolean("wpSyncOutsideBranches", wpSyncOutside(),
+		"in `writeLocked`, `sync = sync || incoming.sync` is a statement of the body of `case incoming := <-db.writeMergeC` outside both branches of `if incoming.batch != nil`, between that `if` and `db.writeMergedC <- true`, and occurs once")
+	o.boolean("wpPoolBatchReset", ifBodySeq("leveldb/db_write.go", "DB.writeLocked", "ourBatch == nil",
+		[]string{"ourBatch = db.batchPool.Get().(*Batch)", "ourBatch.Reset()", "batches = append(batches, ourBatch)"}) &&
+		countStmts("leveldb/db_write.go", "DB.writeLocked", "ourBatch = db.batchPool.Get().(*Batch)") == 1 &&
+		topStmtBefore("leveldb/db_write.go", "DB.putRec", "batch := db.batchPool.Get().(*Batch)", "batch.Reset()") &&
+		topStmtBefore("leveldb/db_write.go", "DB.putRec", "batch.Reset()", "batch.appendRec(kt, key, value)") &&
+		topStmtBefore("leveldb/db_write.go", "DB.putRec", "batch.appendRec(kt, key, value)", "return db.writeLocked(batch, batch, merge, sync)"),
+		"in the merge loop of `writeLocked`, `ourBatch.Reset()` follows `ourBatch = db.batchPool.Get().(*Batch)` (before it is appended to `batches`); `putRec` resets its pooled batch before `appendRec` and passes it as both `batch` and `ourBatch`")
+	o.boolean("wpMergedPutToOurBatch", wpMergedPutToOur() &&
+		strings.Contains(funcText("leveldb/db_write.go", "DB.Write"), "return db.writeLocked(batch, nil, merge, sync)"),
+		"the record of a merged Put/Delete is appended with `ourBatch.appendRec(…)` (the only `appendRec` of `writeLocked`, after the `if ourBatch == nil {…}`), no mutating method is called on `batch`/`incoming.batch`, and `Write` passes `ourBatch = nil`")
+	o.boolean("wpUnlockHandsOffOnError", wpUnlockHandsOff(),
+		"`unlockWrite` is the ack loop (`db.writeAckC <- err`, `merged` times) followed by `if overflow { db.writeMergedC <- false } else { <-db.writeLockC }`: the test is `overflow` alone, whatever `err`")
+	{
+		x, y, z, shape := wpMergeLimit()
+		o.nat("wpMergeBigBatch", x, "writeLocked: if batch.internalLen > …")
+		o.nat("wpMergeLimitBig", y, "writeLocked: mergeLimit = … - batch.internalLen")
+		o.nat("wpMergeLimitSmall", z, "writeLocked: else mergeLimit = …")
+		o.boolean("wpMergeLimitShape", shape,
+			"`mergeCap := mdbFree - batch.internalLen; if mergeLimit > mergeCap { mergeLimit = mergeCap }` precede `for mergeLimit > 0`; both overflow tests are `… > mergeLimit` followed by `overflow = true; break merge`; `mergeLimit` is decreased by `incoming.batch.internalLen`, resp. `len(incoming.key) + len(incoming.value) + 8`, and is mentioned nowhere else")
+	}
 
 	// order facts behind the file-removal model (C07: Model/TableRemove.lean, Model/Session.lean)
 	o.boolean("removeReusesInsideDelete", func() bool {
